@@ -1245,6 +1245,8 @@ class SymExec:
             return self.isinstance_(st, args[0], args[1], n)
         if name in ("tuple", "list") and len(args) == 1 and isinstance(args[0], Tup):
             return Tup(args[0].items, name)
+        if name == "reversed" and len(args) == 1 and isinstance(args[0], Tup) and not any(isinstance(x, Star) for x in args[0].items):
+            return Tup(list(reversed(args[0].items)), "list")
         if name == "enumerate":
             return Enum(args[0], args[1] if len(args) > 1 else kwargs.get("start", Lin.const(0)))
         if name == "range":
